@@ -1,0 +1,40 @@
+// Copyright © 2025 Meroxa, Inc.
+//
+// Licensed under the Apache License, Version 2.0 (the "License");
+// you may not use this file except in compliance with the License.
+// You may obtain a copy of the License at
+//
+//     http://www.apache.org/licenses/LICENSE-2.0
+//
+// Unless required by applicable law or agreed to in writing, software
+// distributed under the License is distributed on an "AS IS" BASIS,
+// WITHOUT WARRANTIES OR CONDITIONS OF ANY KIND, either express or implied.
+// See the License for the specific language governing permissions and
+// limitations under the License.
+
+//go:build verif
+
+// Package verifhook marks scheduling points for the external conformance
+// harness. With the "verif" build tag the harness can install a function
+// that is called (and may block) at every point.
+package verifhook
+
+import "sync/atomic"
+
+var hook atomic.Pointer[func(point string)]
+
+// Set installs f (nil removes it).
+func Set(f func(point string)) {
+	if f == nil {
+		hook.Store(nil)
+		return
+	}
+	hook.Store(&f)
+}
+
+// At calls the installed function, if any, with the name of the point.
+func At(point string) {
+	if f := hook.Load(); f != nil {
+		(*f)(point)
+	}
+}
